@@ -197,6 +197,16 @@ def prepare(m, case):
             m.vertices[i] = M.Vec(float(v[0]), float(v[1]), float(v[2]))
 
 
+def as_repr(x, rep):
+    """the same integer in another integer representation (roots come out of numpy code as often as not)"""
+    if x is None or not rep or rep == "int":
+        return x
+    import numpy as np
+    if rep == "uint8" and not (0 <= x < 256):
+        rep = "int64"
+    return {"int32": np.int32, "int64": np.int64, "uint8": np.uint8}[rep](x)
+
+
 def run_case(case, meshes=None, keep=None):
     """one object built, computed and observed.  meshes = (mesh under test, mesh for the observations) when the caller
     shares them between several objects (sessions); keep: list receiving the object built"""
@@ -212,6 +222,7 @@ def run_case(case, meshes=None, keep=None):
     else:
         m, m_obs = meshes
     omit = bool(case.get("omit_optional"))      # build WITHOUT the optional arguments (their defaults apply)
+    root_arg = as_repr(case.get("root"), case.get("root_repr"))
     kind = case["kind"]
     op = case["op"]
     unstable = []
@@ -235,17 +246,17 @@ def run_case(case, meshes=None, keep=None):
         res.update({"raw": raw, "polyline": poly, "n": len(raw)})
         try:
             if omit:
-                t = {"edge": T.EdgeSpanningTree, "face": T.FaceSpanningTree, "cell": T.CellSpanningTree}[kind](m, case["root"])
+                t = {"edge": T.EdgeSpanningTree, "face": T.FaceSpanningTree, "cell": T.CellSpanningTree}[kind](m, root_arg)
                 if keep is not None:
                     keep.append(t)
                 t = t()
             elif kind == "edge":
-                t = T.EdgeSpanningTree(m, case["root"], avoid_boundary=bool(case.get("avoid_boundary", False)),
+                t = T.EdgeSpanningTree(m, root_arg, avoid_boundary=bool(case.get("avoid_boundary", False)),
                                        avoid_edges=excl_set)
             elif kind == "face":
-                t = T.FaceSpanningTree(m, case["root"], excl_set)
+                t = T.FaceSpanningTree(m, root_arg, excl_set)
             else:
-                t = T.CellSpanningTree(m, case["root"], excl_set)
+                t = T.CellSpanningTree(m, root_arg, excl_set)
             if not omit:
                 if keep is not None:
                     keep.append(t)
@@ -290,9 +301,9 @@ def run_case(case, meshes=None, keep=None):
             weights = w
         try:
             if omit:
-                t = T.EdgeMinimalSpanningTree(m, case["root"])
+                t = T.EdgeMinimalSpanningTree(m, root_arg)
             else:
-                t = T.EdgeMinimalSpanningTree(m, case["root"], avoid_boundary=bool(case.get("avoid_boundary", False)),
+                t = T.EdgeMinimalSpanningTree(m, root_arg, avoid_boundary=bool(case.get("avoid_boundary", False)),
                                               weights=weights)
             if keep is not None:
                 keep.append(t)
@@ -381,25 +392,38 @@ def run_session(case):
             k = step["obj"]
             obj = objs[k] if k < len(objs) else None
             sub = subs[k] if k < len(objs) else None
-            if obj is None or snaps[k] is None or sub["op"] not in ("tree", "kruskal"):
+            if obj is None or snaps[k] is None:
                 results.append({"skipped": True})
                 continue
             m, m_obs = meshes[sub["mesh_id"]]
-            n_el = len(obj.parent)
-            obj.root = step["root"] % n_el
-            tgt = excl_of(obj)
+            if sub["op"] != "forest":
+                n_el = len(obj.parent)
+                obj.root = as_repr(step["root"] % n_el, step.get("root_repr"))
+            tgt = excl_of(obj)          # the caller's live set (the constructor stores the object it was given)
             if tgt is not None:
                 tgt.update(step["ids"])
                 expected[k] = set(expected[k] or set()) | set(step["ids"])
-            obj.compute()
+            # run it again through either public spelling: obj() must run compute() again, like obj.compute()
+            if step.get("spelling", "call") == "call":
+                ret = obj()
+                if ret is not obj:
+                    results[first_result[k]].setdefault("unstable", []).append("obj() does not return the object")
+            else:
+                obj.compute()
             res = dict(results[first_result[k]])
             unstable = []
-            if sub["op"] == "tree":
-                raw, _ = raw_slots(m_obs, case["meshes"][sub["mesh_id"]], sub["kind"], None if tgt is None else set(tgt), True)
+            if sub["op"] in ("tree", "forest"):
+                ex_now = None if tgt is None else set(tgt)
+                raw, _ = raw_slots(m_obs, case["meshes"][sub["mesh_id"]], sub["kind"],
+                                   ex_now if (sub["op"] == "tree" or sub["kind"] == "face") else None, True)
                 res["raw"] = raw
-            res.update(tree_obs(obj, step.get("read_order", 0), unstable))
+            if sub["op"] == "forest":
+                res.update(forest_obs(obj, step.get("read_order", 0), unstable))
+                res["update"] = {"obj": k, "excl": None if tgt is None else sorted(int(x) for x in tgt)}
+            else:
+                res.update(tree_obs(obj, step.get("read_order", 0), unstable))
+                res["update"] = {"obj": k, "root": int(obj.root), "excl": None if tgt is None else sorted(int(x) for x in tgt)}
             res["unstable"] = unstable
-            res["update"] = {"obj": k, "root": int(obj.root), "excl": None if tgt is None else sorted(int(x) for x in tgt)}
             snaps[k] = obj_snapshot(obj)
             results.append(res)
     for k, obj in enumerate(objs):
